@@ -93,8 +93,11 @@ def r2_reverse(ctx, nf) -> None:
                 continue
             if c.qualname == "hugr._serialization.ops.FunctionValue":
                 t, _ = nf.method_nf(c, "deserialize")
-                ok = t[0] == "ctor" and t[1] == "hugr.val.Function" and "_from_serial" in show(t) and "self.hugr" in show(t)
-                ctx.check(ok, "C05.R2", inst, c.module.path, m.lineno, "a function value decodes its body through Hugr._from_serial(SerialHugr(**hugr))", m, found=show(t)[:200])
+                from ..nf import find_calls
+                sh = find_calls(t, "SerialHugr")
+                ok = t[0] == "ctor" and t[1] == "hugr.val.Function" and "_from_serial" in show(t) and len(sh) == 1 and not sh[0][2] \
+                    and list(sh[0][3]) == [("**", attr(sym("self"), "hugr"))]
+                ctx.check(ok, "C05.R2", inst, c.module.path, m.lineno, "a function value must decode its whole nested document -- Hugr._from_serial(SerialHugr(**self.hugr)) -- or parts of the body (e.g. its metadata) are lost", m, found=show(t)[:200])
                 continue
             probs, desc = codec.reverse(nf, c)
             probs = [p for p in probs if not (p.field and p.field.split(".")[-1] in REVERSE_EXCLUDED)]
@@ -171,6 +174,9 @@ def run(ctx) -> None:
     c02.r4_r5_r7_load(ctx, R4="C05.R3", R5="C05.R3", R7="C05.R6")
     r4_sugar(ctx, nf)
     c02.r2_single_use_iterators(ctx, rule="C05.R5")
+    from .. import lints
+    lints.arm(ctx)
+
 
 
 # ---------------------------------------------------------------------------------------
